@@ -59,11 +59,6 @@ static void chk(int argc, char** argv)
 	else if (IS("beltPBKDF2", 3)) code = beltPBKDF2(BIG2, BIG, A(0), A(1), BIG + 5000, A(2));
 	else if (IS("bashHash", 2)) code = bashHash(BIG2, A(0), BIG, A(1));
 	else if (IS("belsStdM", 2)) code = belsStdM(BIG2, A(0), A(1));
-	else if (IS("belsValM", 1))
-	{
-		if (A(0) == 16 || A(0) == 24 || A(0) == 32) belsStdM(BIG3, A(0), 0);
-		code = belsValM(BIG3, A(0));
-	}
 	else if (IS("belsShare2", 3)) { tape_start(); code = belsShare2(BIG2, A(0), A(1), A(2), K32, prngEchoStepR, ECHO); }
 	else if (IS("belsShare3", 3)) code = belsShare3(BIG2, A(0), A(1), A(2), K32);
 	else if (IS("belsShare", 3))
@@ -88,6 +83,30 @@ static void chk(int argc, char** argv)
 	else if (IS("botpTOTPRand", 3)) code = botpTOTPRand(OTP, A(0), BIG, A(1), (tm_time_t)A(2));
 	else if (IS("bpkiPrivkeyWrap", 3)) { size_t l = 0; code = bpkiPrivkeyWrap(BIG2, &l, BIG + 9000, A(0), BIG, A(1), IV16, A(2)); }
 	else if (IS("bpkiShareWrap", 3)) { size_t l = 0; memcpy(BIG3 + 1, K32, 32); BIG3[0] = 3; code = bpkiShareWrap(BIG2, &l, BIG3, A(0), BIG, A(1), IV16, A(2)); }
+	else if (IS("belsValM", 1))
+	{
+		if (A(0) == 16 || A(0) == 24 || A(0) == 32) belsStdM(BIG3, A(0), 0);
+		code = belsValM(BIG3, A(0));
+	}
+	else if (IS("belsGenM0", 1)) { tape_start(); code = belsGenM0(BIG2, A(0), prngEchoStepR, ECHO); }
+	else if (IS("belsGenMid", 2))
+	{
+		if (A(0) == 16 || A(0) == 24 || A(0) == 32) belsStdM(BIG3, A(0), 0);
+		code = belsGenMid(BIG2, A(0), BIG3, BIG, A(1));
+	}
+	else if (IS("belsRecover", 2))
+	{
+		size_t len = A(1), cnt = A(0);
+		if ((len == 16 || len == 24 || len == 32) && cnt >= 1 && cnt <= 16)
+		{
+			belsStdM(BIG3, len, 0);
+			for (i = 0; i < 16; ++i) belsStdM(BIG3 + 64 + len * i, len, i + 1);
+			tape_start();
+			belsShare(BIG3 + 2048, 16, cnt, len, K32, BIG3, BIG3 + 64, prngEchoStepR, ECHO);
+		}
+		code = belsRecover(BIG2, cnt, len, BIG3 + 2048, BIG3, BIG3 + 64);
+	}
+	else if (IS("bignKeyWrap", 1)) { tape_start(); code = bignKeyWrap(BIG2, PARAMS, BIG, A(0), HDR16, PUB, prngEchoStepR, ECHO); }
 	else { printf("unknown"); return; }
 	if (code == ERR_OK) printf("pass"); else printf("%u", (unsigned)code);
 }
